@@ -83,7 +83,7 @@ func Run(c *vf.Check) {
 	}
 	for _, sn := range []string{"ed25519", "p256", "bn256.G1"} {
 		maxN := 4
-		if c.Thorough() {
+		if c.Thorough() || sn == "ed25519" {
 			maxN = 6
 		}
 		for n := 1; n <= maxN; n++ {
@@ -92,7 +92,7 @@ func Run(c *vf.Check) {
 		}
 	}
 	vf.Parallel(len(jobs), func(i int) { jobs[i]() })
-	c.Finish("engine E: ECIES on {Ed25519, P-256, QR512, bn256.G1, kilic.G1}, IBE CCA on both assignments / CPA on the suites with the needed hash-to-group, anonymous-set encryption on {Ed25519, P-256, bn256.G1}: every message length 0..80 and {127,128,129,255,256,4095,4096} (IBE: every length 0..2*hash size+2) x 4 plaintext patterns; round trip = plaintext, or refusal at encryption; wrong key / identity / recipient index => error (authenticated schemes; IBE-CCA: judged for the empty message - the known finding - and from 8 bytes on, in between the outcome depends on randomness kyber draws itself with probability 2^(-8 len)); one bit per byte of the ciphertext flipped (thorough: every bit for lengths <= 80) and every truncation => error, never a panic, never another plaintext; no aligned 16-byte plaintext window at the same offset of the ciphertext body; anonymous-set: sizes 1..4 x every recipient index. "+
+	c.Finish("engine E: ECIES on {Ed25519, P-256, QR512, bn256.G1, kilic.G1}, IBE CCA on both assignments / CPA on the suites with the needed hash-to-group, anonymous-set encryption on {Ed25519, P-256, bn256.G1}: every message length 0..80 and {127,128,129,255,256,4095,4096} (IBE: every length 0..2*hash size+2) x 4 plaintext patterns; round trip = plaintext, or refusal at encryption; wrong key / identity / recipient index => error (authenticated schemes; IBE-CCA: judged for the empty message - the known finding - and from 8 bytes on, in between the outcome depends on randomness kyber draws itself with probability 2^(-8 len)); one bit per byte of the ciphertext flipped (thorough: every bit for lengths <= 80) and every truncation => error, never a panic, never another plaintext; no aligned 16-byte plaintext window at the same offset of the ciphertext body; anonymous-set: sizes 1..6 on Ed25519, 1..4 on the others (thorough 1..6) x every recipient index. "+
 		"non-trivial = non-empty messages; distinct by (scheme, group, length, pattern, mutation class)",
 		[]string{"ECIES, IBE and anon.Encrypt draw from crypto/rand inside kyber: only verdicts and plaintexts are compared, never ciphertext bytes", "every Decrypt gets its own copy of the ciphertext"}, nil)
 }
